@@ -63,6 +63,8 @@ def kind_of(a):
             return "real"
         if n == "identity":
             return "identity"
+        if n == "step":
+            return "step"
         if n in SIGNED_SCALARS:
             return "position"
         if n in ("which", "towhich", "fromwhich", "innerwhich", "outerwhich", "tag"):
@@ -152,6 +154,9 @@ def scalar_domain(a, tier, shrink=0):
         return [0, hi, lo] if lo < 0 else [0, hi, 1]
     if kind == "length":
         return list(range(0, n + 1))
+    if kind == "step":
+        # a slice step is never 0 and never kSliceNone when it reaches a kernel
+        return [1, -1, 2] if tier == "quick" or shrink else [1, -1, 2, -2, 3]
     if kind == "position":
         d = [0, 1, -1, 2]
         if tier != "quick" and shrink == 0:
